@@ -2,6 +2,7 @@
   C08 — the simulation theorem `sim` (statement level) for the stage-1 fragment.
 -/
 import GojaModel.C08.CompileSLemmas
+import GojaModel.C08.Lemmas
 
 namespace GojaModel.C08
 open Compl
@@ -62,11 +63,11 @@ theorem exitPt_peel {C : Code} {ctx : List BI} {τ : VM} {lb : Option Label} {b 
 
 /-- leaving a block scope (`blk`, catch parameter scope): the inner statement ran with `n` extra
 stack slots in context `scope n :: ctx`; the code `leaveBlock n` follows it at `e1`. -/
-theorem wrapScope {C : Code} {ctx : List BI} {σ σ1 : VM} {n e1 : Nat} {I : List Nat} {rf : Bool}
+theorem wrapScope {C : Code} {ctx : List BI} {src base σ1 : VM} {n e1 : Nat} {I : List Nat} {rf : Bool}
     {l0 l : List Ev} {k : K} (ys : List Val) (hn : ys.length = n)
-    (hr0 : Reach C σ σ1) (hc0 : Common σ σ1 l0 I rf) (hs : σ1.stack = ys ++ σ.stack)
+    (hr0 : Reach C src σ1) (hc0 : Common base σ1 l0 I rf) (hs : σ1.stack = ys ++ base.stack)
     (hleave : C[e1]? = some (Instr.leaveBlock n))
-    (hsim : SimK C (BI.scope n :: ctx) σ1 e1 I rf l k) : SimK C ctx σ (e1 + 1) I rf (l0 ++ l) k := by
+    (hsim : SimK C (BI.scope n :: ctx) σ1 e1 I rf l k) : SimG C ctx src base (e1 + 1) I rf (l0 ++ l) k := by
   cases k with
   | normal =>
     obtain ⟨τ, h1, h2, h3, h4⟩ := hsim
@@ -98,7 +99,7 @@ theorem wrapScope {C : Code} {ctx : List BI} {σ σ1 : VM} {n e1 : Nat} {I : Lis
     · exact exitPt_peel hf' hcd _ (by simp)
   | ret v =>
     obtain ⟨τ, h1, h2, ⟨xs, h3⟩, h4⟩ := hsim
-    exact ⟨τ, hr0.trans h1, hc0.trans h2, ⟨xs ++ ys, by rw [h3, hs]; simp⟩, h4⟩
+    exact ⟨τ, hr0.trans h1, hc0.weaken.trans h2, ⟨xs ++ ys, by rw [h3, hs]; simp⟩, h4⟩
   | thr v =>
     obtain ⟨τ, h2, ⟨xs, h3⟩, h4⟩ := hsim
     exact ⟨τ, hc0.trans h2, ⟨xs ++ ys, by rw [h3, hs]; simp⟩, hr0.trans h4⟩
@@ -141,7 +142,7 @@ theorem wrapWith {C : Code} {ctx : List BI} {σ σ1 : VM} {e1 : Nat} {I : List N
     · exact exitPt_peel hf' hcd _ (by simp)
   | ret v =>
     obtain ⟨τ, h1, h2, ⟨xs, h3⟩, h4⟩ := hsim
-    exact ⟨τ, hr0.trans h1, hc0.trans h2, ⟨xs, by rw [h3, hs]⟩, h4⟩
+    exact ⟨τ, hr0.trans h1, hc0.weaken.trans h2, ⟨xs, by rw [h3, hs]⟩, h4⟩
   | thr v =>
     obtain ⟨τ, h2, ⟨xs, h3⟩, h4⟩ := hsim
     exact ⟨τ, hc0.trans h2, ⟨xs, by rw [h3, hs]⟩, hr0.trans h4⟩
@@ -256,6 +257,340 @@ theorem exec_lbl_adj (env : Nat) (l : Label) (s : Stmt) :
         · have : ¬ (l = l') := fun h => hl h.symm
           simp [hl, this]
     | _ => rfl
+
+/-- handleThrow never reads the `tries` field of the state it is given (it is passed the frames) -/
+theorem handleThrow_tries_irrel (ex : Option Val) (fs : List TryFrame) (vm : VM) (x : List TryFrame) :
+    VM.handleThrow ex fs { vm with tries := x } = VM.handleThrow ex fs vm := by
+  induction fs generalizing vm with
+  | nil => simp [VM.handleThrow, VM.closeIters]
+  | cons tf rest ih =>
+    simp only [VM.handleThrow]
+    split
+    · exact ih vm
+    · simp only [VM.closeIters, VM.setSp]
+      split
+      · rfl
+      · split <;> rfl
+
+theorem SimG.prependG {C : Code} {ctx : List BI} {src mid base midB : VM} {e : Nat} {I : List Nat} {rf : Bool}
+    {l1 l2 : List Ev} {k : K} (hr : Reach C src mid) (hc : Common base midB l1 I rf) (hs : midB.stack = base.stack)
+    (h : SimG C ctx mid midB e I rf l2 k) : SimG C ctx src base e I rf (l1 ++ l2) k := by
+  cases k with
+  | normal => obtain ⟨τ, h1, h2, h3, h4⟩ := h; exact ⟨τ, hr.trans h1, hc.trans h2, h3, by rw [h4, hs]⟩
+  | brk lb => obtain ⟨τ, h1, h2, h3, h4⟩ := h; exact ⟨τ, hr.trans h1, hc.trans h2, by rw [h3, hs], h4⟩
+  | cont lb => obtain ⟨τ, h1, h2, h3, h4⟩ := h; exact ⟨τ, hr.trans h1, hc.trans h2, by rw [h3, hs], h4⟩
+  | ret v =>
+    obtain ⟨τ, h1, h2, ⟨xs, h3⟩, h4⟩ := h
+    exact ⟨τ, hr.trans h1, hc.weaken.trans h2, ⟨xs, by rw [h3, hs]⟩, h4⟩
+  | thr v =>
+    obtain ⟨τ, h2, ⟨xs, h3⟩, h4⟩ := h
+    exact ⟨τ, hc.trans h2, ⟨xs, by rw [h3, hs]⟩, hr.trans h4⟩
+  | fatal => exact h
+
+theorem SimG.end_irrel {C : Code} {ctx : List BI} {src base : VM} {e e' : Nat} {I : List Nat} {rf : Bool}
+    {l : List Ev} {k : K} (hk : k ≠ K.normal) (h : SimG C ctx src base e I rf l k) : SimG C ctx src base e' I rf l k := by
+  cases k with
+  | normal => exact absurd rfl hk
+  | _ => exact h
+
+/-- an abrupt completion leaving a try statement whose frame is "dead" (its finally block is
+running or absent, its catch clause is disarmed): break/continue and return pop the frame with
+leaveTry, handleThrow skips it. -/
+theorem peelDead {C : Code} {ctx : List BI} {src base : VM} {g : TryFrame} {rest : List TryFrame}
+    {e e' : Nat} {I : List Nat} {rf : Bool} {l : List Ev} {k : K}
+    (hg1 : g.finallyPos = none) (hg2 : ∀ v, k = K.thr v → g.catchPos = none) (hb : base.tries = g :: rest)
+    (hk : k ≠ K.normal) (h : SimG C (BI.try_ :: ctx) src base e I rf l k) :
+    SimG C ctx src { base with tries := rest } e' I rf l k := by
+  cases k with
+  | normal => exact absurd rfl hk
+  | brk lb =>
+    obtain ⟨τ, h1, h2, h3, ex, t, hf, hcd⟩ := h
+    obtain ⟨ex', rfl, hf'⟩ := findBrk_try hf
+    have hi : C[τ.pc]? = some Instr.leaveTry := codeAt_head hcd
+    have ht : τ.tries = g :: rest := by rw [h2.tries, hb]
+    have hstep : VM.step τ .leaveTry = { τ with tries := rest, pc := τ.pc + 1 } := by
+      simp [ht, hg1]
+    refine ⟨VM.step τ .leaveTry, h1.trans (Reach.one h2.halted hi), ?_, ?_, ?_⟩
+    · rw [hstep]
+      exact ⟨h2.log, rfl, h2.iters, h2.halted, h2.cnt, h2.res⟩
+    · rw [hstep]; exact h3
+    · exact exitPt_peel hf' hcd _ (by rw [hstep])
+  | cont lb =>
+    obtain ⟨τ, h1, h2, h3, ex, t, hf, hcd⟩ := h
+    obtain ⟨ex', rfl, hf'⟩ := findBrk_try hf
+    have hi : C[τ.pc]? = some Instr.leaveTry := codeAt_head hcd
+    have ht : τ.tries = g :: rest := by rw [h2.tries, hb]
+    have hstep : VM.step τ .leaveTry = { τ with tries := rest, pc := τ.pc + 1 } := by
+      simp [ht, hg1]
+    refine ⟨VM.step τ .leaveTry, h1.trans (Reach.one h2.halted hi), ?_, ?_, ?_⟩
+    · rw [hstep]
+      exact ⟨h2.log, rfl, h2.iters, h2.halted, h2.cnt, h2.res⟩
+    · rw [hstep]; exact h3
+    · exact exitPt_peel hf' hcd _ (by rw [hstep])
+  | ret v =>
+    obtain ⟨τ, h1, h2, ⟨xs, h3⟩, h4⟩ := h
+    simp only [retExitsS, List.cons_append, List.nil_append] at h4
+    have i1 : C[τ.pc]? = some Instr.saveResult := codeAt_head h4
+    have i2 : C[τ.pc + 1]? = some Instr.leaveTry := codeAt_head (codeAt_tail h4)
+    have i3 : C[τ.pc + 1 + 1]? = some Instr.loadResult := codeAt_head (codeAt_tail (codeAt_tail h4))
+    have h5 : CodeAt C (τ.pc + 1 + 1 + 1) (retExitsS ctx ++ [Instr.ret]) := codeAt_tail (codeAt_tail (codeAt_tail h4))
+    have ht : τ.tries = g :: rest := by rw [h2.tries, hb]
+    let τa := VM.step τ .saveResult
+    have ea : τa = { τ with stack := xs ++ base.stack, result := v, pc := τ.pc + 1 } := by
+      simp [τa, h3]
+    let τb := VM.step τa .leaveTry
+    have eb : τb = { τ with stack := xs ++ base.stack, result := v, pc := τ.pc + 1 + 1, tries := rest } := by
+      simp only [τb]; rw [ea]; simp [ht, hg1]
+    let τc := VM.step τb .loadResult
+    have ec : τc = { τ with stack := v :: (xs ++ base.stack), result := v, pc := τ.pc + 1 + 1 + 1, tries := rest } := by
+      simp only [τc]; rw [eb]; simp
+    have r1 : Reach C τ τc := by
+      refine Reach.step h2.halted i1 (Reach.step ?_ ?_ (Reach.one ?_ ?_))
+      · show τa.halted = none; rw [ea]; exact h2.halted
+      · show C[τa.pc]? = _; rw [ea]; exact i2
+      · show τb.halted = none; rw [eb]; exact h2.halted
+      · show C[τb.pc]? = _; rw [eb]; exact i3
+    refine ⟨τc, h1.trans r1, ?_, ⟨xs, by rw [ec]⟩, by rw [ec]; exact h5⟩
+    rw [ec]
+    exact ⟨h2.log, rfl, h2.iters, h2.halted, h2.cnt, fun h => by simp at h⟩
+  | thr v =>
+    obtain ⟨τ, h2, ⟨xs, h3⟩, h4⟩ := h
+    have ht : τ.tries = g :: rest := by rw [h2.tries, hb]
+    refine ⟨{ τ with tries := rest }, ⟨h2.log, rfl, h2.iters, h2.halted, h2.cnt, h2.res⟩, ⟨xs, h3⟩, ?_⟩
+    have : VM.throwV (some v) { τ with tries := rest } = VM.throwV (some v) τ := by
+      simp only [VM.throwV, ht]
+      rw [handleThrow_tries_irrel]
+      simp [VM.handleThrow, hg1, hg2 v rfl]
+    rw [this]; exact h4
+  | fatal => exact h
+
+theorem drop_ext (xs b : List Val) : (xs ++ b).drop ((xs ++ b).length - b.length) = b := by
+  induction xs with
+  | nil => simp
+  | cons x xs ih =>
+    have : (x :: (xs ++ b)).length - b.length = ((xs ++ b).length - b.length) + 1 := by
+      simp [List.length_append]; omega
+    rw [List.cons_append, this, List.drop_succ_cons]; exact ih
+
+/-- a try statement WITHOUT finally: after the try/catch part the frame is popped by leaveTry -/
+theorem noFinallyStage {C : Code} {ctx : List BI} {src base : VM} {g : TryFrame} {rest : List TryFrame}
+    {pcF : Nat} {I : List Nat} {rf : Bool} {l : List Ev} {k : K}
+    (hg1 : g.finallyPos = none) (hthr : ∀ v, k = K.thr v → g.catchPos = none) (hb : base.tries = g :: rest)
+    (hleave : C[pcF]? = some Instr.leaveTry)
+    (h : SimG C (BI.try_ :: ctx) src base pcF I rf l k) :
+    SimG C ctx src { base with tries := rest } (pcF + 1) I rf l k := by
+  by_cases hk : k = K.normal
+  · subst hk
+    obtain ⟨τ, h1, h2, h3, h4⟩ := h
+    have ht : τ.tries = g :: rest := by rw [h2.tries, hb]
+    have hstep : VM.step τ .leaveTry = { τ with tries := rest, pc := τ.pc + 1 } := by
+      simp [ht, hg1]
+    refine ⟨VM.step τ .leaveTry, h1.trans (Reach.one h2.halted (by rw [h3]; exact hleave)), ?_, ?_, ?_⟩
+    · rw [hstep]; exact ⟨h2.log, rfl, h2.iters, h2.halted, h2.cnt, h2.res⟩
+    · rw [hstep]; simp [h3]
+    · rw [hstep]; exact h4
+  · exact peelDead hg1 hthr hb hk h
+
+/-- a try statement WITH finally: whatever the try/catch part did (kind `k`), the finally block runs
+once from `pcF`; if it completes normally (`kf = normal`) the pending completion resumes (leaveFinally:
+rethrow / jump to finallyRet / fall through), otherwise its own completion replaces the pending one. -/
+theorem finallyStage {C : Code} {ctx : List BI} {src base : VM} {g : TryFrame} {rest : List TryFrame}
+    {pcF lf env cur i : Nat} {I If : List Nat} {rf : Bool} {l lfl : List Ev} {k kf : K}
+    (hg1 : g.finallyPos = some (pcF + 1)) (hgx : g.exc = none) (hgr : g.finallyRet = none)
+    (hgsp : g.sp = base.stack.length)
+    (hthr : ∀ v, k = K.thr v → g.catchPos = none) (hret : ∀ v, k = K.ret v → rf = false)
+    (hb : base.tries = g :: rest) (hbi : base.iters = []) (hbc : base.cnt cur = some env) (hcurI : cur ∉ I)
+    (hsubI : ∀ x, x ∈ If → x ∈ I)
+    (hE : C[pcF]? = some Instr.enterFinally) (hM : C[pcF + 1]? = some (Instr.emit (Ev.finE i)))
+    (hL : C[pcF + 2 + lf]? = some Instr.leaveFinally)
+    (hF : ∀ τ : VM, τ.pc = pcF + 2 → τ.halted = none → τ.iters = [] → τ.cnt cur = some env →
+        SimK C (BI.try_ :: ctx) τ (pcF + 2 + lf) If true lfl kf)
+    (h : SimG C (BI.try_ :: ctx) src base pcF I rf l k) :
+    SimG C ctx src { base with tries := rest } (pcF + 2 + lf + 1) I rf (l ++ Ev.finE i :: lfl)
+      (if kf = K.normal then k else kf) := by
+  have runFin : ∀ τF : VM, τF.pc = pcF + 1 → τF.halted = none → τF.iters = [] → τF.cnt cur = some env →
+      SimK C (BI.try_ :: ctx) τF (pcF + 2 + lf) I true (Ev.finE i :: lfl) kf := by
+    intro τF hp hh hi hc
+    have c1 : Common τF (VM.step τF (.emit (.finE i))) [Ev.finE i] I true :=
+      ⟨by simp, by simp, by simpa using hi, by simpa using hh, fun _ _ => by simp, fun _ => by simp⟩
+    have A := hF (VM.step τF (.emit (.finE i))) (by simp [hp]) c1.halted c1.iters (by simpa using hc)
+    have := SimK.prepend (Reach.one hh (by rw [hp]; exact hM)) c1 (by simp) (SimK.mono A hsubI (fun h => h))
+    simpa using this
+  have abruptTail : kf ≠ K.normal → ∀ (τF : VM) (gd : TryFrame), gd.finallyPos = none → gd.catchPos = none →
+      Reach C src τF → Common { base with tries := gd :: rest } τF l I rf → τF.stack = base.stack → τF.pc = pcF + 1 →
+      SimG C ctx src { base with tries := rest } (pcF + 2 + lf + 1) I rf (l ++ Ev.finE i :: lfl) kf := by
+    intro hkf τF gd hd1 hd2 hrF hcF hsF hpF
+    have hcnt : τF.cnt cur = some env := by rw [hcF.cnt cur hcurI]; exact hbc
+    have R := runFin τF hpF hcF.halted hcF.iters hcnt
+    have R' : SimG C (BI.try_ :: ctx) τF τF (pcF + 2 + lf) I rf (Ev.finE i :: lfl) kf :=
+      SimK.mono R (fun _ h => h) (fun _ => rfl)
+    have P := peelDead (e' := pcF + 2 + lf + 1) hd1 (fun _ _ => hd2) hcF.tries hkf R'
+    exact SimG.prependG (midB := { τF with tries := rest }) (base := { base with tries := rest }) hrF
+      ⟨hcF.log, rfl, hcF.iters, hcF.halted, hcF.cnt, hcF.res⟩ hsF P
+  cases k with
+  | normal =>
+    obtain ⟨τ, h1, h2, h3, h4⟩ := h
+    have ht : τ.tries = g :: rest := by rw [h2.tries, hb]
+    let gd : TryFrame := { g with finallyPos := none, catchPos := none }
+    have hstep : VM.step τ .enterFinally = { τ with tries := gd :: rest, pc := pcF + 1 } := by
+      simp [ht, gd, h3]
+    have hrF : Reach C src (VM.step τ .enterFinally) := h1.trans (Reach.one h2.halted (by rw [h3]; exact hE))
+    have hcF : Common { base with tries := gd :: rest } (VM.step τ .enterFinally) l I rf := by
+      rw [hstep]; exact ⟨h2.log, rfl, h2.iters, h2.halted, h2.cnt, h2.res⟩
+    have hsF : (VM.step τ .enterFinally).stack = base.stack := by rw [hstep]; exact h4
+    have hpF : (VM.step τ .enterFinally).pc = pcF + 1 := by rw [hstep]
+    by_cases hkf : kf = K.normal
+    · subst hkf
+      simp only [if_true]
+      have hcnt : (VM.step τ .enterFinally).cnt cur = some env := by rw [hcF.cnt cur hcurI]; exact hbc
+      obtain ⟨τ', r1, r2, r3, r4⟩ := runFin _ hpF hcF.halted hcF.iters hcnt
+      have ht' : τ'.tries = gd :: rest := by rw [r2.tries, hstep]
+      have hstep2 : VM.step τ' .leaveFinally = { τ' with tries := rest, pc := τ'.pc + 1 } := by
+        simp [ht', gd, hgx, hgr]
+      have cc : Common { base with tries := gd :: rest } τ' (l ++ Ev.finE i :: lfl) I rf :=
+        hcF.trans (r2.mono (fun _ h => h) (fun _ => rfl))
+      refine ⟨VM.step τ' .leaveFinally, hrF.trans (r1.trans (Reach.one r2.halted (by rw [r3]; exact hL))), ?_, ?_, ?_⟩
+      · rw [hstep2]; exact ⟨cc.log, rfl, cc.iters, cc.halted, cc.cnt, cc.res⟩
+      · rw [hstep2]; simp [r3]
+      · rw [hstep2]; show τ'.stack = base.stack; rw [r4, hsF]
+    · simp only [hkf, if_false]
+      exact abruptTail hkf _ gd rfl rfl hrF hcF hsF hpF
+  | brk lb =>
+    obtain ⟨τ, h1, h2, h3, ex, t, hf, hcd⟩ := h
+    obtain ⟨ex', rfl, hf'⟩ := findBrk_try hf
+    have hi : C[τ.pc]? = some Instr.leaveTry := codeAt_head hcd
+    have ht : τ.tries = g :: rest := by rw [h2.tries, hb]
+    let gd : TryFrame := { g with finallyRet := some (τ.pc + 1), finallyPos := none, catchPos := none }
+    have hstep : VM.step τ .leaveTry = { τ with tries := gd :: rest, pc := pcF + 1 } := by
+      simp [ht, hg1, gd, VM.setSp, h3, hgsp]
+    have hrF : Reach C src (VM.step τ .leaveTry) := h1.trans (Reach.one h2.halted hi)
+    have hcF : Common { base with tries := gd :: rest } (VM.step τ .leaveTry) l I rf := by
+      rw [hstep]; exact ⟨h2.log, rfl, h2.iters, h2.halted, h2.cnt, h2.res⟩
+    have hsF : (VM.step τ .leaveTry).stack = base.stack := by rw [hstep]; exact h3
+    have hpF : (VM.step τ .leaveTry).pc = pcF + 1 := by rw [hstep]
+    by_cases hkf : kf = K.normal
+    · subst hkf
+      simp only [if_true]
+      have hcnt : (VM.step τ .leaveTry).cnt cur = some env := by rw [hcF.cnt cur hcurI]; exact hbc
+      obtain ⟨τ', r1, r2, r3, r4⟩ := runFin _ hpF hcF.halted hcF.iters hcnt
+      have ht' : τ'.tries = gd :: rest := by rw [r2.tries, hstep]
+      have hstep2 : VM.step τ' .leaveFinally = { τ' with tries := rest, pc := τ.pc + 1 } := by
+        simp [ht', gd, hgx]
+      have cc : Common { base with tries := gd :: rest } τ' (l ++ Ev.finE i :: lfl) I rf :=
+        hcF.trans (r2.mono (fun _ h => h) (fun _ => rfl))
+      refine ⟨VM.step τ' .leaveFinally, hrF.trans (r1.trans (Reach.one r2.halted (by rw [r3]; exact hL))), ?_, ?_, ?_⟩
+      · rw [hstep2]; exact ⟨cc.log, rfl, cc.iters, cc.halted, cc.cnt, cc.res⟩
+      · rw [hstep2]; show τ'.stack = base.stack; rw [r4, hsF]
+      · exact exitPt_peel hf' hcd _ (by rw [hstep2])
+    · simp only [hkf, if_false]
+      exact abruptTail hkf _ gd rfl rfl hrF hcF hsF hpF
+  | cont lb =>
+    obtain ⟨τ, h1, h2, h3, ex, t, hf, hcd⟩ := h
+    obtain ⟨ex', rfl, hf'⟩ := findBrk_try hf
+    have hi : C[τ.pc]? = some Instr.leaveTry := codeAt_head hcd
+    have ht : τ.tries = g :: rest := by rw [h2.tries, hb]
+    let gd : TryFrame := { g with finallyRet := some (τ.pc + 1), finallyPos := none, catchPos := none }
+    have hstep : VM.step τ .leaveTry = { τ with tries := gd :: rest, pc := pcF + 1 } := by
+      simp [ht, hg1, gd, VM.setSp, h3, hgsp]
+    have hrF : Reach C src (VM.step τ .leaveTry) := h1.trans (Reach.one h2.halted hi)
+    have hcF : Common { base with tries := gd :: rest } (VM.step τ .leaveTry) l I rf := by
+      rw [hstep]; exact ⟨h2.log, rfl, h2.iters, h2.halted, h2.cnt, h2.res⟩
+    have hsF : (VM.step τ .leaveTry).stack = base.stack := by rw [hstep]; exact h3
+    have hpF : (VM.step τ .leaveTry).pc = pcF + 1 := by rw [hstep]
+    by_cases hkf : kf = K.normal
+    · subst hkf
+      simp only [if_true]
+      have hcnt : (VM.step τ .leaveTry).cnt cur = some env := by rw [hcF.cnt cur hcurI]; exact hbc
+      obtain ⟨τ', r1, r2, r3, r4⟩ := runFin _ hpF hcF.halted hcF.iters hcnt
+      have ht' : τ'.tries = gd :: rest := by rw [r2.tries, hstep]
+      have hstep2 : VM.step τ' .leaveFinally = { τ' with tries := rest, pc := τ.pc + 1 } := by
+        simp [ht', gd, hgx]
+      have cc : Common { base with tries := gd :: rest } τ' (l ++ Ev.finE i :: lfl) I rf :=
+        hcF.trans (r2.mono (fun _ h => h) (fun _ => rfl))
+      refine ⟨VM.step τ' .leaveFinally, hrF.trans (r1.trans (Reach.one r2.halted (by rw [r3]; exact hL))), ?_, ?_, ?_⟩
+      · rw [hstep2]; exact ⟨cc.log, rfl, cc.iters, cc.halted, cc.cnt, cc.res⟩
+      · rw [hstep2]; show τ'.stack = base.stack; rw [r4, hsF]
+      · exact exitPt_peel hf' hcd _ (by rw [hstep2])
+    · simp only [hkf, if_false]
+      exact abruptTail hkf _ gd rfl rfl hrF hcF hsF hpF
+  | ret v =>
+    obtain ⟨τ, h1, h2, ⟨xs, h3⟩, h4⟩ := h
+    have hrf : rf = false := hret v rfl
+    subst hrf
+    simp only [retExitsS, List.cons_append, List.nil_append] at h4
+    have i1 : C[τ.pc]? = some Instr.saveResult := codeAt_head h4
+    have i2 : C[τ.pc + 1]? = some Instr.leaveTry := codeAt_head (codeAt_tail h4)
+    have i3 : C[τ.pc + 1 + 1]? = some Instr.loadResult := codeAt_head (codeAt_tail (codeAt_tail h4))
+    have h5 : CodeAt C (τ.pc + 1 + 1 + 1) (retExitsS ctx ++ [Instr.ret]) := codeAt_tail (codeAt_tail (codeAt_tail h4))
+    have ht : τ.tries = g :: rest := by rw [h2.tries, hb]
+    let gd : TryFrame := { g with finallyRet := some (τ.pc + 1 + 1), finallyPos := none, catchPos := none }
+    have ea : VM.step τ .saveResult = { τ with stack := xs ++ base.stack, result := v, pc := τ.pc + 1 } := by
+      simp [h3]
+    have eb : VM.step (VM.step τ .saveResult) .leaveTry
+        = { τ with stack := base.stack, result := v, pc := pcF + 1, tries := gd :: rest } := by
+      rw [ea]; simp [ht, hg1, gd, VM.setSp, hgsp, drop_ext]
+    have hrF : Reach C src (VM.step (VM.step τ .saveResult) .leaveTry) := by
+      refine h1.trans (Reach.step h2.halted i1 (Reach.one ?_ ?_))
+      · rw [ea]; exact h2.halted
+      · rw [ea]; exact i2
+    have hcF : Common { base with tries := gd :: rest } (VM.step (VM.step τ .saveResult) .leaveTry) l I false := by
+      rw [eb]; exact ⟨h2.log, rfl, h2.iters, h2.halted, h2.cnt, fun h => by simp at h⟩
+    have hsF : (VM.step (VM.step τ .saveResult) .leaveTry).stack = base.stack := by rw [eb]
+    have hpF : (VM.step (VM.step τ .saveResult) .leaveTry).pc = pcF + 1 := by rw [eb]
+    by_cases hkf : kf = K.normal
+    · subst hkf
+      simp only [if_true]
+      have hcnt : (VM.step (VM.step τ .saveResult) .leaveTry).cnt cur = some env := by
+        rw [hcF.cnt cur hcurI]; exact hbc
+      obtain ⟨τ', r1, r2, r3, r4⟩ := runFin _ hpF hcF.halted hcF.iters hcnt
+      have ht' : τ'.tries = gd :: rest := by rw [r2.tries, eb]
+      have hres : τ'.result = v := by rw [r2.res rfl, eb]
+      have hstep2 : VM.step τ' .leaveFinally = { τ' with tries := rest, pc := τ.pc + 1 + 1 } := by
+        simp [ht', gd, hgx]
+      have hst' : τ'.stack = base.stack := by rw [r4, hsF]
+      have hstep3 : VM.step (VM.step τ' .leaveFinally) .loadResult
+          = { τ' with tries := rest, pc := τ.pc + 1 + 1 + 1, stack := v :: base.stack } := by
+        rw [hstep2]; simp [hres, hst']
+      have cc : Common { base with tries := gd :: rest } τ' (l ++ Ev.finE i :: lfl) I false :=
+        hcF.trans (r2.mono (fun _ h => h) (fun h => by simp at h))
+      refine ⟨VM.step (VM.step τ' .leaveFinally) .loadResult, ?_, ?_, ⟨[], by rw [hstep3]; simp⟩, by rw [hstep3]; exact h5⟩
+      · refine hrF.trans (r1.trans (Reach.step r2.halted (by rw [r3]; exact hL) (Reach.one ?_ ?_)))
+        · rw [hstep2]; exact r2.halted
+        · rw [hstep2]; exact i3
+      · rw [hstep3]; exact ⟨cc.log, rfl, cc.iters, cc.halted, cc.cnt, fun h => by simp at h⟩
+    · simp only [hkf, if_false]
+      exact abruptTail hkf _ gd rfl rfl hrF hcF hsF hpF
+  | thr v =>
+    obtain ⟨τ, h2, ⟨xs, h3⟩, h4⟩ := h
+    have hcp : g.catchPos = none := hthr v rfl
+    have ht : τ.tries = g :: rest := by rw [h2.tries, hb]
+    let gd : TryFrame := { g with exc := some v, finallyPos := none, finallyRet := none }
+    have hit : τ.iters = [] := h2.iters
+    have hstep : VM.throwV (some v) τ = { τ with stack := base.stack, pc := pcF + 1, tries := gd :: rest } := by
+      simp [VM.throwV, ht, VM.handleThrow, hg1, hcp, VM.closeIters, VM.closeIters.go, VM.setSp, hit, h3, hgsp, drop_ext, gd]
+    have hrF : Reach C src (VM.throwV (some v) τ) := h4
+    have hcF : Common { base with tries := gd :: rest } (VM.throwV (some v) τ) l I rf := by
+      rw [hstep]; exact ⟨h2.log, rfl, h2.iters, h2.halted, h2.cnt, h2.res⟩
+    have hsF : (VM.throwV (some v) τ).stack = base.stack := by rw [hstep]
+    have hpF : (VM.throwV (some v) τ).pc = pcF + 1 := by rw [hstep]
+    have hgd2 : gd.catchPos = none := hcp
+    by_cases hkf : kf = K.normal
+    · subst hkf
+      simp only [if_true]
+      have hcnt : (VM.throwV (some v) τ).cnt cur = some env := by rw [hcF.cnt cur hcurI]; exact hbc
+      obtain ⟨τ', r1, r2, r3, r4⟩ := runFin _ hpF hcF.halted hcF.iters hcnt
+      have ht' : τ'.tries = gd :: rest := by rw [r2.tries, hstep]
+      have hstep2 : VM.step τ' .leaveFinally = VM.throwV (some v) { τ' with tries := rest } := by
+        simp [ht', gd]
+      have cc : Common { base with tries := gd :: rest } τ' (l ++ Ev.finE i :: lfl) I rf :=
+        hcF.trans (r2.mono (fun _ h => h) (fun _ => rfl))
+      refine ⟨{ τ' with tries := rest }, ⟨cc.log, rfl, cc.iters, cc.halted, cc.cnt, cc.res⟩, ⟨[], ?_⟩, ?_⟩
+      · show τ'.stack = [] ++ base.stack; rw [r4, hsF]; rfl
+      · rw [← hstep2]
+        exact hrF.trans (r1.trans (Reach.one r2.halted (by rw [r3]; exact hL)))
+    · simp only [hkf, if_false]
+      exact abruptTail hkf _ gd rfl hgd2 hrF hcF hsF hpF
+  | fatal => exact h.elim
 
 /-- `adj` on kinds -/
 def adjK (lab : Option Label) : K → K
@@ -446,6 +781,331 @@ theorem loopSim {C : Code} {ctx : List BI} {lab : Option Label} {e contPc bodyPc
         exact ⟨τ1, h2.mono hsub (fun h => h), h3, h4⟩
       | fatal => exact hb.elim
 
+/-! ### a statement without `return` never completes with a return -/
+
+def NR (r : Res) : Prop := ∀ v, kind r.1 ≠ K.ret v
+
+theorem NR_seqRes {ra : Res} {rb : Unit → Res} (ha : NR ra) (hb : NR (rb ())) : NR (seqRes ra rb) := by
+  obtain ⟨ca, la⟩ := ra
+  cases ca with
+  | normal va =>
+    intro v
+    simp only [seqRes]
+    cases va with
+    | none => exact hb v
+    | some x => show kind ((rb ()).1.updateEmpty x) ≠ K.ret v; rw [kind_updateEmpty]; exact hb v
+  | _ => exact ha
+
+theorem NR_catchPart (i : Nat) {rb : Res} (hasC : Bool) {rc : Unit → Res} (hb : NR rb) (hc : hasC = true → NR (rc ())) :
+    NR (catchPart i rb hasC rc) := by
+  obtain ⟨cb, lb⟩ := rb
+  cases cb with
+  | thr v =>
+    cases hasC with
+    | true => intro w; simpa [catchPart] using hc rfl w
+    | false => simpa [catchPart] using hb
+  | _ => simpa [catchPart] using hb
+
+theorem kind_finPart (i : Nat) (rbc : Res) (rf : Unit → Res) (h : rbc.1 ≠ .fatal) :
+    kind (finPart i rbc rf).1 = (if kind (rf ()).1 = K.normal then kind rbc.1 else kind (rf ()).1) ∧
+    (finPart i rbc rf).2 = Ev.tryE i :: (rbc.2 ++ Ev.finE i :: (rf ()).2) := by
+  rw [finPart_nonfatal i rf h]
+  refine ⟨?_, rfl⟩
+  show kind ((match (rf ()).1 with | .normal _ => rbc.1 | c => c).updateEmpty 0) = _
+  rw [kind_updateEmpty]
+  cases (rf ()).1 <;> simp [kind]
+
+theorem NR_loopFrom (run : Nat → Res) (ls : List Label) (h : ∀ i, NR (run i)) : ∀ r i V, NR (loopFrom run ls r i V) := by
+  intro r
+  induction r with
+  | zero => intro i V v; simp [loopFrom, kind]
+  | succ r ih =>
+    intro i V v
+    rw [loopFrom_succ]
+    by_cases hc : (run i).1.loopContinues ls = true
+    · simp only [hc, if_true]; exact ih (i + 1) _ v
+    · have hc' : (run i).1.loopContinues ls = false := by simpa using hc
+      simp only [hc', Bool.false_eq_true, if_false]
+      rw [kind_exitBreakable, kind_updateEmpty]
+      have := h i v
+      cases hk : kind (run i).1 with
+      | brk lb => cases lb <;> simp [exitK]
+      | ret w => rw [hk] at this; simp [exitK]; intro hh; exact this (by rw [hh])
+      | _ => simp [exitK]
+
+theorem retFree_no_ret (s : Stmt) : stage1 s = true → retFree s = true → ∀ env ls, NR (exec env ls s) := by
+  induction s with
+  | skip => intro _ _ env ls v; simp [exec, kind]
+  | log k => intro _ _ env ls v; simp [exec, kind]
+  | seq a b iha ihb =>
+    intro hs hr env ls
+    simp only [stage1, Bool.and_eq_true] at hs
+    simp only [retFree, Bool.and_eq_true] at hr
+    simp only [exec]
+    exact NR_seqRes (iha hs.1 hr.1 env []) (ihb hs.2 hr.2 env [])
+  | brk l => intro _ _ env ls v; simp [exec, kind]
+  | cont l => intro _ _ env ls v; simp [exec, kind]
+  | ret v => intro _ hr; simp [retFree] at hr
+  | thr v => intro _ _ env ls w; simp [exec, kind]
+  | fatal => intro hs; simp [stage1] at hs
+  | tryS i b hasC c hasF f ihb ihc ihf =>
+    intro hs hr env ls
+    simp only [stage1, Bool.and_eq_true] at hs
+    simp only [retFree, Bool.and_eq_true] at hr
+    obtain ⟨⟨⟨_, hsb⟩, hsc⟩, hsf⟩ := hs
+    have hcp : NR (catchPart i (exec env [] b) hasC (fun _ => exec env [] c)) :=
+      NR_catchPart i hasC (ihb hsb hr.1.1 env []) (fun hC => by
+        subst hC
+        simp only [if_true] at hsc
+        exact ihc hsc hr.1.2 env [])
+    simp only [exec, tryRes]
+    cases hasF with
+    | false =>
+      intro v
+      simp only [Bool.false_eq_true, if_false]
+      rw [kind_updateEmpty]; exact hcp v
+    | true =>
+      simp only [if_true, Bool.and_eq_true] at hsf ⊢
+      intro v
+      by_cases hfat : (catchPart i (exec env [] b) hasC (fun _ => exec env [] c)).1 = .fatal
+      · have : (finPart i (catchPart i (exec env [] b) hasC (fun _ => exec env [] c)) (fun _ => exec env [] f)).1 = .fatal := by
+          generalize catchPart i (exec env [] b) hasC (fun _ => exec env [] c) = rbc at hfat
+          obtain ⟨cc, l⟩ := rbc
+          simp only at hfat; subst hfat; rfl
+        rw [this]; simp [kind]
+      · rw [(kind_finPart i _ _ hfat).1]
+        have hf := ihf hsf.1.1 hr.2 env []
+        by_cases hn : kind (exec env [] f).1 = K.normal
+        · simp only [hn, if_true]; exact hcp v
+        · simp only [hn, if_false]; exact hf v
+  | loop k id n body ih =>
+    intro hs hr env ls
+    simp only [stage1, Bool.and_eq_true] at hs
+    simp only [exec]
+    exact NR_loopFrom _ ls (fun i => ih hs.1.2 hr i []) _ _ _
+  | forOf sp body ih => intro hs; simp [stage1] at hs
+  | lbl l s ih =>
+    intro hs hr env ls v
+    simp only [stage1, Bool.and_eq_true] at hs
+    have := ih hs.1 hr env (l :: ls) v
+    rw [(exec_lbl_kind env ls l s).1]
+    cases hk : kind (exec env (l :: ls) s).1 with
+    | brk lb =>
+      cases lb with
+      | none => simp [lblK]
+      | some l' => by_cases h : l' = l <;> simp [lblK, h]
+    | ret w => rw [hk] at this; simp [lblK]; intro hh; exact this (by rw [hh])
+    | _ => simp [lblK]
+  | sw u k a b _ _ => intro hs; simp [stage1] at hs
+  | withS s ih =>
+    intro hs hr env ls v
+    have := ih hs hr env [] v
+    simp only [exec]
+    show kind ((exec env [] s).1.updateEmpty 0) ≠ K.ret v
+    rw [kind_updateEmpty]; exact this
+  | blk s ih => intro hs hr env ls; simp only [exec]; exact ih hs hr env []
+  | ifIter m s ih =>
+    intro hs hr env ls v
+    simp only [exec]
+    by_cases he : env = m
+    · simp only [he, if_true]
+      show kind ((exec m [] s).1.updateEmpty 0) ≠ K.ret v
+      rw [kind_updateEmpty]; exact ih hs hr m [] v
+    · simp [he, kind]
+
+theorem catchPart_false (i : Nat) (rb : Res) (rc : Unit → Res) : catchPart i rb false rc = rb := by
+  obtain ⟨cb, l⟩ := rb
+  cases cb <;> rfl
+
+/-- the try block followed by the catch clause: where the VM is afterwards, with the try frame
+still on the stack (as `g`: the original frame, possibly with the catch clause disarmed). -/
+theorem catchStage {C : Code} {ctx : List BI} {σ1 : VM} {p0 lb lc env cur i : Nat} {hasC : Bool}
+    {I : List Nat} {rf : Bool} {g0 : TryFrame} {rest : List TryFrame} {rb : Res} {rc : Unit → Res}
+    (ht : σ1.tries = g0 :: rest)
+    (hg0c : g0.catchPos = if hasC then some (p0 + lb + 1) else none) (hg0sp : g0.sp = σ1.stack.length)
+    (hit : σ1.iters = []) (hcnt : σ1.cnt cur = some env) (hcurI : cur ∉ I)
+    (hB : SimK C (BI.try_ :: ctx) σ1 (p0 + lb) I rf rb.2 (kind rb.1))
+    (hC : hasC = true →
+      C[p0 + lb]? = some (Instr.jump (Int.ofNat (3 + lc + 1))) ∧ C[p0 + lb + 1]? = some (Instr.enterBlock 0) ∧
+      C[p0 + lb + 2]? = some (Instr.catchLog i) ∧ C[p0 + lb + 3 + lc]? = some (Instr.leaveBlock 1) ∧
+      ∀ τ : VM, τ.pc = p0 + lb + 3 → τ.halted = none → τ.iters = [] → τ.cnt cur = some env →
+        SimK C (BI.scope 1 :: BI.try_ :: ctx) τ (p0 + lb + 3 + lc) I rf (rc ()).2 (kind (rc ()).1)) :
+    ∃ g : TryFrame, g.finallyPos = g0.finallyPos ∧ g.exc = g0.exc ∧ g.finallyRet = g0.finallyRet ∧ g.sp = g0.sp ∧
+      (∀ v, kind (catchPart i rb hasC rc).1 = K.thr v → g.catchPos = none) ∧
+      SimG C (BI.try_ :: ctx) σ1 { σ1 with tries := g :: rest } (p0 + lb + (if hasC then lc + 4 else 0)) I rf
+        (catchPart i rb hasC rc).2 (kind (catchPart i rb hasC rc).1) := by
+  have hself : ({ σ1 with tries := g0 :: rest } : VM) = σ1 := by rw [← ht]
+  cases hasC with
+  | false =>
+    refine ⟨g0, rfl, rfl, rfl, rfl, fun _ _ => by simpa using hg0c, ?_⟩
+    rw [catchPart_false, hself]
+    have : p0 + lb + (if false = true then lc + 4 else 0) = p0 + lb := by simp
+    rw [this]
+    exact hB
+  | true =>
+    obtain ⟨hJ, hEB, hCL, hLB, hCs⟩ := hC rfl
+    simp only [if_true] at hg0c ⊢
+    obtain ⟨cb, lbl⟩ := rb
+    cases cb with
+    | normal v =>
+      refine ⟨g0, rfl, rfl, rfl, rfl, fun w hw => by simp [catchPart, kind] at hw, ?_⟩
+      rw [hself]
+      obtain ⟨τ, h1, h2, h3, h4⟩ := hB
+      have hi : C[τ.pc]? = some (Instr.jump (Int.ofNat (3 + lc + 1))) := by rw [h3]; exact hJ
+      refine ⟨VM.step τ (.jump (Int.ofNat (3 + lc + 1))), h1.trans (Reach.one h2.halted hi), ?_, ?_, ?_⟩
+      · have : Common τ (VM.step τ (.jump (Int.ofNat (3 + lc + 1)))) [] I rf :=
+          ⟨by simp, by simp, by simpa using h2.iters, by simpa using h2.halted, fun _ _ => by simp, fun _ => by simp⟩
+        simpa [catchPart] using h2.trans this
+      · simp [h3]; omega
+      · simpa using h4
+    | brk l v =>
+      refine ⟨g0, rfl, rfl, rfl, rfl, fun w hw => by simp [catchPart, kind] at hw, ?_⟩
+      rw [hself]
+      exact SimK.end_irrel (k := K.brk l) (by simp) hB
+    | cont l v =>
+      refine ⟨g0, rfl, rfl, rfl, rfl, fun w hw => by simp [catchPart, kind] at hw, ?_⟩
+      rw [hself]
+      exact SimK.end_irrel (k := K.cont l) (by simp) hB
+    | ret v =>
+      refine ⟨g0, rfl, rfl, rfl, rfl, fun w hw => by simp [catchPart, kind] at hw, ?_⟩
+      rw [hself]
+      exact SimK.end_irrel (k := K.ret v) (by simp) hB
+    | fatal => exact hB.elim
+    | thr v =>
+      obtain ⟨τt, hc, ⟨xs, hs⟩, hr⟩ := hB
+      have htt : τt.tries = g0 :: rest := by rw [hc.tries, ht]
+      let gc : TryFrame := { g0 with catchPos := none }
+      have hstep : VM.throwV (some v) τt = { τt with stack := v :: σ1.stack, pc := p0 + lb + 1, tries := gc :: rest } := by
+        simp [VM.throwV, htt, VM.handleThrow, hg0c, VM.closeIters, VM.closeIters.go, VM.setSp, hc.iters, hs, hg0sp, drop_ext, gc]
+      let τc := VM.throwV (some v) τt
+      let τc1 := VM.step τc (.enterBlock 0)
+      let τc2 := VM.step τc1 (.catchLog i)
+      have e1 : τc1 = { τt with stack := v :: σ1.stack, pc := p0 + lb + 2, tries := gc :: rest } := by
+        simp only [τc1, τc]; rw [hstep]; simp
+      have e2 : τc2 = { τt with stack := v :: σ1.stack, pc := p0 + lb + 3, tries := gc :: rest, log := τt.log ++ [Ev.caught i v] } := by
+        simp only [τc2]; rw [e1]; simp
+      have hr2 : Reach C σ1 τc2 := by
+        refine hr.trans (Reach.step ?_ ?_ (Reach.one ?_ ?_))
+        · show τc.halted = none; simp only [τc]; rw [hstep]; exact hc.halted
+        · show C[τc.pc]? = _; simp only [τc]; rw [hstep]; exact hEB
+        · show τc1.halted = none; rw [e1]; exact hc.halted
+        · show C[τc1.pc]? = _; rw [e1]; exact hCL
+      have hc0 : Common { σ1 with tries := gc :: rest } τc2 (lbl ++ [Ev.caught i v]) I rf := by
+        rw [e2]
+        exact ⟨by show τt.log ++ [Ev.caught i v] = σ1.log ++ (lbl ++ [Ev.caught i v]); rw [hc.log, List.append_assoc],
+          rfl, hc.iters, hc.halted, hc.cnt, hc.res⟩
+      have hcn2 : τc2.cnt cur = some env := by rw [e2]; show τt.cnt cur = some env; rw [hc.cnt cur hcurI]; exact hcnt
+      have cs := hCs τc2 (by rw [e2]) (by rw [e2]; exact hc.halted) (by rw [e2]; exact hc.iters) hcn2
+      have W := wrapScope (src := σ1) (base := { σ1 with tries := gc :: rest }) [v] rfl hr2 hc0 (by rw [e2]; rfl) hLB cs
+      refine ⟨gc, rfl, rfl, rfl, rfl, fun _ _ => rfl, ?_⟩
+      have e : p0 + lb + (lc + 4) = p0 + lb + 3 + lc + 1 := by omega
+      rw [e]
+      simpa [catchPart, List.append_assoc] using W
+
+/-- assembly of a try statement from the simulations of its parts -/
+theorem trySim {C : Code} {ctx : List BI} {σ : VM} {pc lb lc lf env cur i : Nat} {hasC hasF : Bool}
+    {I If : List Nat} {rf : Bool} {rb : Res} {rc rff : Unit → Res}
+    (hpc : σ.pc = pc) (hh : σ.halted = none) (hit : σ.iters = []) (hcnt : σ.cnt cur = some env) (hcurI : cur ∉ I)
+    (hsubF : ∀ x, x ∈ If → x ∈ I) (hcf : (hasC || hasF) = true)
+    (hT : C[pc]? = some (Instr.try_ (if hasC then (1 + (if hasF then 1 else 0)) + lb + 1 else 0)
+            (if hasF then (1 + (if hasF then 1 else 0)) + lb + (if hasC then 3 + lc + 1 else 0) + 1 else 0)))
+    (hTE : hasF = true → C[pc + 1]? = some (Instr.emit (Ev.tryE i)))
+    (hB : ∀ τ : VM, τ.pc = pc + (1 + (if hasF then 1 else 0)) → τ.halted = none → τ.iters = [] → τ.cnt cur = some env →
+        SimK C (BI.try_ :: ctx) τ (pc + (1 + (if hasF then 1 else 0)) + lb) I rf rb.2 (kind rb.1))
+    (hC : hasC = true →
+      C[pc + (1 + (if hasF then 1 else 0)) + lb]? = some (Instr.jump (Int.ofNat (3 + lc + 1))) ∧
+      C[pc + (1 + (if hasF then 1 else 0)) + lb + 1]? = some (Instr.enterBlock 0) ∧
+      C[pc + (1 + (if hasF then 1 else 0)) + lb + 2]? = some (Instr.catchLog i) ∧
+      C[pc + (1 + (if hasF then 1 else 0)) + lb + 3 + lc]? = some (Instr.leaveBlock 1) ∧
+      ∀ τ : VM, τ.pc = pc + (1 + (if hasF then 1 else 0)) + lb + 3 → τ.halted = none → τ.iters = [] → τ.cnt cur = some env →
+        SimK C (BI.scope 1 :: BI.try_ :: ctx) τ (pc + (1 + (if hasF then 1 else 0)) + lb + 3 + lc) I rf (rc ()).2 (kind (rc ()).1))
+    (hFin : hasF = true →
+      C[pc + 2 + lb + (if hasC then lc + 4 else 0)]? = some Instr.enterFinally ∧
+      C[pc + 2 + lb + (if hasC then lc + 4 else 0) + 1]? = some (Instr.emit (Ev.finE i)) ∧
+      C[pc + 2 + lb + (if hasC then lc + 4 else 0) + 2 + lf]? = some Instr.leaveFinally ∧
+      ∀ τ : VM, τ.pc = pc + 2 + lb + (if hasC then lc + 4 else 0) + 2 → τ.halted = none → τ.iters = [] → τ.cnt cur = some env →
+        SimK C (BI.try_ :: ctx) τ (pc + 2 + lb + (if hasC then lc + 4 else 0) + 2 + lf) If true (rff ()).2 (kind (rff ()).1))
+    (hNoFin : hasF = false → C[pc + 1 + lb + (if hasC then lc + 4 else 0)]? = some Instr.leaveTry)
+    (hNR : rf = true → NR rb ∧ (hasC = true → NR (rc ()))) :
+    SimK C ctx σ (pc + (1 + (if hasF then 1 else 0)) + lb + (if hasC then lc + 4 else 0) + (if hasF then 2 + lf + 1 else 1))
+      I rf (tryRes i rb hasC rc hasF rff).2 (kind (tryRes i rb hasC rc hasF rff).1) := by
+  have hretA : ∀ v, kind (catchPart i rb hasC rc).1 = K.ret v → rf = false := by
+    intro v hk
+    cases hrf : rf with
+    | false => rfl
+    | true =>
+      obtain ⟨h1, h2⟩ := hNR hrf
+      exact absurd hk (NR_catchPart i hasC h1 h2 v)
+  cases hasF with
+  | true =>
+    simp only [if_true] at hT hB hC ⊢
+    obtain ⟨hE, hM, hL, hF⟩ := hFin rfl
+    have hTE' := hTE rfl
+    -- entry: push the frame, log the instrumentation event
+    let tf0 : TryFrame :=
+      { iterLen := σ.iters.length, sp := σ.stack.length,
+        catchPos := if hasC then some (pc + 2 + lb + 1) else none,
+        finallyPos := some (pc + 2 + lb + (if hasC then lc + 4 else 0) + 1) }
+    let σ0 := VM.step σ (.try_ (if hasC then 1 + 1 + lb + 1 else 0) (1 + 1 + lb + (if hasC then 3 + lc + 1 else 0) + 1))
+    have e0 : σ0 = { σ with tries := tf0 :: σ.tries, pc := pc + 1 } := by
+      simp only [σ0, tf0]
+      cases hasC <;> simp [hpc] <;> omega
+    let σ1 := VM.step σ0 (.emit (.tryE i))
+    have e1 : σ1 = { σ with tries := tf0 :: σ.tries, pc := pc + 2, log := σ.log ++ [Ev.tryE i] } := by
+      simp only [σ1]; rw [e0]; simp
+    have hr1 : Reach C σ σ1 := by
+      refine Reach.step hh (by rw [hpc]; exact hT) (Reach.one ?_ ?_)
+      · show σ0.halted = none; rw [e0]; exact hh
+      · show C[σ0.pc]? = _; rw [e0]; exact hTE'
+    have hB' := hB σ1 (by rw [e1]) (by rw [e1]; exact hh) (by rw [e1]; exact hit) (by rw [e1]; exact hcnt)
+    obtain ⟨g, hgf, hgx, hgr, hgsp, hgthr, hA⟩ := catchStage (C := C) (ctx := ctx) (σ1 := σ1) (p0 := pc + 2) (lb := lb) (lc := lc)
+      (env := env) (cur := cur) (i := i) (hasC := hasC) (I := I) (rf := rf) (g0 := tf0) (rest := σ.tries) (rb := rb) (rc := rc)
+      (by rw [e1]) (by simp [tf0]) (by rw [e1]) (by rw [e1]; exact hit) (by rw [e1]; exact hcnt) hcurI hB' hC
+    have S := finallyStage (C := C) (ctx := ctx) (src := σ1) (base := { σ1 with tries := g :: σ.tries }) (g := g) (rest := σ.tries)
+      (pcF := pc + 2 + lb + (if hasC then lc + 4 else 0)) (lf := lf) (env := env) (cur := cur) (i := i) (I := I) (If := If) (rf := rf)
+      (by rw [hgf]) (by rw [hgx]) (by rw [hgr]) (by rw [hgsp, e1]) hgthr hretA rfl (by rw [e1]; exact hit)
+      (by rw [e1]; exact hcnt) hcurI hsubF hE hM hL hF hA
+    have hc1 : Common σ { σ1 with tries := σ.tries } [Ev.tryE i] I rf := by
+      rw [e1]; exact ⟨rfl, rfl, hit, hh, fun _ _ => rfl, fun _ => rfl⟩
+    have R := SimG.prependG (src := σ) (base := σ) hr1 hc1 (by rw [e1]) S
+    -- match with the reference semantics
+    simp only [tryRes, if_true]
+    by_cases hfat : (catchPart i rb hasC rc).1 = .fatal
+    · rw [hfat] at hA; exact hA.elim
+    · obtain ⟨hk, hl⟩ := kind_finPart i (catchPart i rb hasC rc) rff hfat
+      rw [hk, hl]
+      have e : pc + (1 + 1) + lb + (if hasC then lc + 4 else 0) + (2 + lf + 1)
+          = pc + 2 + lb + (if hasC then lc + 4 else 0) + 2 + lf + 1 := by omega
+      rw [e]
+      exact R
+  | false =>
+    have hC' : hasC = true := by simpa using hcf
+    subst hC'
+    simp only [Bool.false_eq_true, if_false, if_true, Nat.add_zero] at hT hB hC ⊢
+    have hLT := hNoFin rfl
+    simp only [if_true] at hLT
+    let tf0 : TryFrame :=
+      { iterLen := σ.iters.length, sp := σ.stack.length, catchPos := some (pc + 1 + lb + 1), finallyPos := none }
+    let σ1 := VM.step σ (.try_ (1 + lb + 1) 0)
+    have e1 : σ1 = { σ with tries := tf0 :: σ.tries, pc := pc + 1 } := by
+      simp only [σ1, tf0]; simp [hpc]; omega
+    have hr1 : Reach C σ σ1 := Reach.one hh (by rw [hpc]; exact hT)
+    have hB' := hB σ1 (by rw [e1]) (by rw [e1]; exact hh) (by rw [e1]; exact hit) (by rw [e1]; exact hcnt)
+    obtain ⟨g, hgf, hgx, hgr, hgsp, hgthr, hA⟩ := catchStage (C := C) (ctx := ctx) (σ1 := σ1) (p0 := pc + 1) (lb := lb) (lc := lc)
+      (env := env) (cur := cur) (i := i) (hasC := true) (I := I) (rf := rf) (g0 := tf0) (rest := σ.tries) (rb := rb) (rc := rc)
+      (by rw [e1]) (by simp [tf0]) (by rw [e1]) (by rw [e1]; exact hit) (by rw [e1]; exact hcnt) hcurI hB' (fun _ => hC trivial)
+    simp only [if_true] at hA
+    have S := noFinallyStage (C := C) (ctx := ctx) (src := σ1) (base := { σ1 with tries := g :: σ.tries }) (g := g) (rest := σ.tries)
+      (by rw [hgf]) hgthr rfl hLT hA
+    have hc1 : Common σ { σ1 with tries := σ.tries } [] I rf := by
+      rw [e1]; exact ⟨by simp, rfl, hit, hh, fun _ _ => rfl, fun _ => rfl⟩
+    have R := SimG.prependG (src := σ) (base := σ) hr1 hc1 (by rw [e1]) S
+    simp only [tryRes, Bool.false_eq_true, if_false]
+    rw [kind_updateEmpty]
+    have R' : SimK C ctx σ (pc + 1 + lb + (lc + 4) + 1) I rf ([] ++ (catchPart i rb true rc).2)
+        (kind (catchPart i rb true rc).1) := R
+    simpa using R'
+
 theorem common_step {σ : VM} {i : Instr} {l : List Ev} {I : List Nat} {rf : Bool}
     (h1 : (VM.step σ i).log = σ.log ++ l) (h2 : (VM.step σ i).tries = σ.tries)
     (h3 : (VM.step σ i).iters = []) (h4 : (VM.step σ i).halted = none)
@@ -569,7 +1229,173 @@ theorem sim (s : Stmt) : ∀ (cur : Nat) (lab : Option Label) (ls : List Label) 
     simp [stage1] at hst
   | tryS i b hasC c hasF f ihb ihc ihf =>
     intro cur lab ls ctx pc C σ env hst hls hlab hcur hnop hC hpc hh hit hcnt
-    sorry
+    have hl : lab = none := hlab rfl
+    subst hl
+    rw [adj_none]
+    simp only [stage1, Bool.and_eq_true] at hst
+    obtain ⟨⟨⟨hcf, hsb⟩, hsc⟩, hsf⟩ := hst
+    simp only [ids, List.mem_append, not_or] at hcur
+    obtain ⟨⟨hcb, hcc⟩, hcfi⟩ := hcur
+    simp only [gen] at hnop hC
+    generalize hlb : glen b none (BS.try_ :: ctx.map BI.shape) = lb at *
+    generalize hlc : glen c none (BS.scope :: BS.try_ :: ctx.map BI.shape) = lc at *
+    generalize hlf : glen f none (BS.try_ :: ctx.map BI.shape) = lf at *
+    cases hasC <;> cases hasF
+    · simp at hcf
+    · simp only [codeAt_append, codeAt_cons, List.length_append, List.length_cons, List.length_nil, gen_length,
+        List.map_cons, BI.shape, hlb, hlc, hlf, if_true, Bool.false_eq_true, if_false, List.append_nil, List.nil_append,
+        Nat.zero_add, Nat.add_zero, Nat.reduceAdd, ← Nat.add_assoc] at hC
+      simp only [if_true, Bool.false_eq_true, if_false, List.append_nil, List.nil_append, hlb, hlc, hlf, List.map_cons,
+        BI.shape, Nat.zero_add, Nat.add_zero, Nat.reduceAdd, ← Nat.add_assoc, List.mem_append, not_or] at hnop
+      obtain ⟨⟨⟨⟨hT, _⟩, hTE, _⟩, hCb⟩, ⟨⟨hE, hM, _⟩, hCf⟩, hL, _⟩ := hC
+      simp only [if_true, Bool.and_eq_true] at hsf
+      have hIb : ∀ x, x ∈ ids b → x ∈ ids (Stmt.tryS i b false c true f) := fun x hx => by simp [ids, hx]
+      have hIf : ∀ x, x ∈ ids f → x ∈ ids (Stmt.tryS i b false c true f) := fun x hx => by simp [ids, hx]
+      have hcurI : cur ∉ ids (Stmt.tryS i b false c true f) := by simp [ids, hcb, hcc, hcfi]
+      have T := trySim (C := C) (ctx := ctx) (σ := σ) (pc := pc) (lb := lb) (lc := lc) (lf := lf) (env := env) (cur := cur) (i := i)
+        (hasC := false) (hasF := true) (I := ids (Stmt.tryS i b false c true f)) (If := ids f)
+        (rf := retFree (Stmt.tryS i b false c true f)) (rb := exec env [] b) (rc := fun _ => exec env [] c)
+        (rff := fun _ => exec env [] f) hpc hh hit hcnt hcurI hIf rfl (by simpa using hT) (fun _ => hTE)
+        (fun τ hp hhh hii hcc' => by
+          have hnb : Instr.nop ∉ gen b cur none (BI.try_ :: ctx) (pc + 2) := by
+            intro h; simp [h] at hnop
+          have A := ihb cur none [] (BI.try_ :: ctx) (pc + 2) C τ env hsb rfl (fun _ => rfl) hcb hnb hCb
+            (by simpa using hp) hhh hii hcc'
+          rw [adj_none] at A
+          simp only [List.map_cons, BI.shape, hlb] at A
+          unfold Sim at A
+          exact SimK.mono A hIb (fun h => by simp [retFree] at h; exact h.1.1))
+        (fun h => by simp at h)
+        (fun _ => ⟨by simpa using hE, by simpa using hM, by simpa using hL, fun τ hp hhh hii hcc' => by
+          have hnf : Instr.nop ∉ gen f cur none (BI.try_ :: ctx) (pc + 2 + lb + 2) := by
+            intro h; simp [h] at hnop
+          have A := ihf cur none [] (BI.try_ :: ctx) (pc + 2 + lb + 2) C τ env hsf.1.1 rfl (fun _ => rfl) hcfi hnf hCf
+            (by simpa using hp) hhh hii hcc'
+          rw [adj_none] at A
+          simp only [List.map_cons, BI.shape, hlf] at A
+          have hrf : retFree f = true := hsf.1.2
+          rw [hrf] at A
+          unfold Sim at A
+          simpa using A⟩)
+        (fun h => by simp at h)
+        (fun hr => by
+          simp [retFree] at hr
+          exact ⟨retFree_no_ret b hsb hr.1.1 env [], fun h => by simp at h⟩)
+      have e : pc + glen (Stmt.tryS i b false c true f) none (ctx.map BI.shape) = pc + 2 + lb + 2 + lf + 1 := by
+        simp [glen, hlb, hlf]; omega
+      rw [e]
+      have e2 : pc + 2 + lb + (2 + lf + 1) = pc + 2 + lb + 2 + lf + 1 := by omega
+      simp only [if_true, Bool.false_eq_true, if_false, Nat.add_zero, Nat.reduceAdd, e2] at T
+      simpa [Sim, exec] using T
+    · -- catch, no finally
+      simp only [codeAt_append, codeAt_cons, List.length_append, List.length_cons, List.length_nil, gen_length,
+        List.map_cons, BI.shape, hlb, hlc, hlf, if_true, Bool.false_eq_true, if_false, List.append_nil, List.nil_append,
+        Nat.zero_add, Nat.add_zero, Nat.reduceAdd, ← Nat.add_assoc] at hC
+      simp only [if_true, Bool.false_eq_true, if_false, List.append_nil, List.nil_append, hlb, hlc, hlf, List.map_cons,
+        BI.shape, Nat.zero_add, Nat.add_zero, Nat.reduceAdd, ← Nat.add_assoc, List.mem_append, not_or] at hnop
+      obtain ⟨⟨⟨⟨hT, _⟩, hCb⟩, ⟨⟨hJ, hEB, hCL, _⟩, hCc⟩, hLB, _⟩, hLT, _⟩ := hC
+      simp only [if_true] at hsc
+      have hIb : ∀ x, x ∈ ids b → x ∈ ids (Stmt.tryS i b true c false f) := fun x hx => by simp [ids, hx]
+      have hIc : ∀ x, x ∈ ids c → x ∈ ids (Stmt.tryS i b true c false f) := fun x hx => by simp [ids, hx]
+      have hIf : ∀ x, x ∈ ids f → x ∈ ids (Stmt.tryS i b true c false f) := fun x hx => by simp [ids, hx]
+      have hcurI : cur ∉ ids (Stmt.tryS i b true c false f) := by simp [ids, hcb, hcc, hcfi]
+      have T := trySim (C := C) (ctx := ctx) (σ := σ) (pc := pc) (lb := lb) (lc := lc) (lf := lf) (env := env) (cur := cur) (i := i)
+        (hasC := true) (hasF := false) (I := ids (Stmt.tryS i b true c false f)) (If := ids f)
+        (rf := retFree (Stmt.tryS i b true c false f)) (rb := exec env [] b) (rc := fun _ => exec env [] c)
+        (rff := fun _ => exec env [] f) hpc hh hit hcnt hcurI hIf rfl (by simpa using hT) (fun h => by simp at h)
+        (fun τ hp hhh hii hcc' => by
+          have hnb : Instr.nop ∉ gen b cur none (BI.try_ :: ctx) (pc + 1) := by
+            intro h; simp [h] at hnop
+          have A := ihb cur none [] (BI.try_ :: ctx) (pc + 1) C τ env hsb rfl (fun _ => rfl) hcb hnb hCb
+            (by simpa using hp) hhh hii hcc'
+          rw [adj_none] at A
+          simp only [List.map_cons, BI.shape, hlb] at A
+          unfold Sim at A
+          exact SimK.mono A hIb (fun h => by simp [retFree] at h; exact h.1.1))
+        (fun _ => ⟨by simpa using hJ, by simpa using hEB, by simpa [Nat.add_assoc] using hCL, by simpa using hLB,
+          fun τ hp hhh hii hcc' => by
+          have hnc : Instr.nop ∉ gen c cur none (BI.scope 1 :: BI.try_ :: ctx) (pc + 1 + lb + 3) := by
+            intro h; simp [h] at hnop
+          have A := ihc cur none [] (BI.scope 1 :: BI.try_ :: ctx) (pc + 1 + lb + 3) C τ env hsc rfl (fun _ => rfl) hcc hnc hCc
+            (by simpa using hp) hhh hii hcc'
+          rw [adj_none] at A
+          simp only [List.map_cons, BI.shape, hlc] at A
+          unfold Sim at A
+          simpa using SimK.mono A hIc (fun h => by simp [retFree] at h; exact h.1.2)⟩)
+        (fun h => by simp at h)
+        (fun _ => by
+          have : pc + 1 + lb + (lc + 4) = pc + 1 + lb + 3 + lc + 1 := by omega
+          simp only [if_true]; rw [this]; exact hLT)
+        (fun hr => by
+          simp [retFree] at hr
+          exact ⟨retFree_no_ret b hsb hr.1.1 env [], fun _ => retFree_no_ret c hsc hr.1.2 env []⟩)
+      have e : pc + glen (Stmt.tryS i b true c false f) none (ctx.map BI.shape) = pc + 1 + lb + (lc + 4) + 1 := by
+        simp [glen, hlb, hlc]; omega
+      rw [e]
+      simp only [if_true, Bool.false_eq_true, if_false, Nat.add_zero, Nat.reduceAdd] at T
+      simpa [Sim, exec] using T
+    · -- catch and finally
+      simp only [codeAt_append, codeAt_cons, List.length_append, List.length_cons, List.length_nil, gen_length,
+        List.map_cons, BI.shape, hlb, hlc, hlf, if_true, Bool.false_eq_true, if_false, List.append_nil, List.nil_append,
+        Nat.zero_add, Nat.add_zero, Nat.reduceAdd, ← Nat.add_assoc] at hC
+      simp only [if_true, Bool.false_eq_true, if_false, List.append_nil, List.nil_append, hlb, hlc, hlf, List.map_cons,
+        BI.shape, Nat.zero_add, Nat.add_zero, Nat.reduceAdd, ← Nat.add_assoc, List.mem_append, not_or] at hnop
+      obtain ⟨⟨⟨⟨⟨hT, _⟩, hTE, _⟩, hCb⟩, ⟨⟨hJ, hEB, hCL, _⟩, hCc⟩, hLB, _⟩, ⟨⟨hE, hM, _⟩, hCf⟩, hL, _⟩ := hC
+      simp only [if_true, Bool.and_eq_true] at hsc hsf
+      have hIb : ∀ x, x ∈ ids b → x ∈ ids (Stmt.tryS i b true c true f) := fun x hx => by simp [ids, hx]
+      have hIc : ∀ x, x ∈ ids c → x ∈ ids (Stmt.tryS i b true c true f) := fun x hx => by simp [ids, hx]
+      have hIf : ∀ x, x ∈ ids f → x ∈ ids (Stmt.tryS i b true c true f) := fun x hx => by simp [ids, hx]
+      have hcurI : cur ∉ ids (Stmt.tryS i b true c true f) := by simp [ids, hcb, hcc, hcfi]
+      have ee : pc + 2 + lb + 3 + lc + 1 = pc + 2 + lb + (lc + 4) := by omega
+      have T := trySim (C := C) (ctx := ctx) (σ := σ) (pc := pc) (lb := lb) (lc := lc) (lf := lf) (env := env) (cur := cur) (i := i)
+        (hasC := true) (hasF := true) (I := ids (Stmt.tryS i b true c true f)) (If := ids f)
+        (rf := retFree (Stmt.tryS i b true c true f)) (rb := exec env [] b) (rc := fun _ => exec env [] c)
+        (rff := fun _ => exec env [] f) hpc hh hit hcnt hcurI hIf rfl
+        (by have : 1 + 1 + lb + (3 + lc + 1) + 1 = 2 + lb + 3 + lc + 1 + 1 := by omega
+            simp only [if_true]; rw [this]; simpa using hT)
+        (fun _ => hTE)
+        (fun τ hp hhh hii hcc' => by
+          have hnb : Instr.nop ∉ gen b cur none (BI.try_ :: ctx) (pc + 2) := by
+            intro h; simp [h] at hnop
+          have A := ihb cur none [] (BI.try_ :: ctx) (pc + 2) C τ env hsb rfl (fun _ => rfl) hcb hnb hCb
+            (by simpa using hp) hhh hii hcc'
+          rw [adj_none] at A
+          simp only [List.map_cons, BI.shape, hlb] at A
+          unfold Sim at A
+          exact SimK.mono A hIb (fun h => by simp [retFree] at h; exact h.1.1))
+        (fun _ => ⟨by simpa using hJ, by simpa using hEB, by simpa [Nat.add_assoc] using hCL, by simpa using hLB,
+          fun τ hp hhh hii hcc' => by
+          have hnc : Instr.nop ∉ gen c cur none (BI.scope 1 :: BI.try_ :: ctx) (pc + 2 + lb + 3) := by
+            intro h; simp [h] at hnop
+          have A := ihc cur none [] (BI.scope 1 :: BI.try_ :: ctx) (pc + 2 + lb + 3) C τ env hsc rfl (fun _ => rfl) hcc hnc hCc
+            (by simpa using hp) hhh hii hcc'
+          rw [adj_none] at A
+          simp only [List.map_cons, BI.shape, hlc] at A
+          unfold Sim at A
+          simpa using SimK.mono A hIc (fun h => by simp [retFree] at h; exact h.1.2)⟩)
+        (fun _ => by
+          simp only [if_true]
+          rw [← ee]
+          refine ⟨hE, hM, hL, fun τ hp hhh hii hcc' => ?_⟩
+          have hnf : Instr.nop ∉ gen f cur none (BI.try_ :: ctx) (pc + 2 + lb + 3 + lc + 1 + 2) := by
+            intro h; simp [h] at hnop
+          have A := ihf cur none [] (BI.try_ :: ctx) (pc + 2 + lb + 3 + lc + 1 + 2) C τ env hsf.1.1 rfl (fun _ => rfl) hcfi hnf hCf
+            hp hhh hii hcc'
+          rw [adj_none] at A
+          simp only [List.map_cons, BI.shape, hlf] at A
+          have hrf : retFree f = true := hsf.1.2
+          rw [hrf] at A
+          unfold Sim at A
+          exact A)
+        (fun h => by simp at h)
+        (fun hr => by
+          simp [retFree] at hr
+          exact ⟨retFree_no_ret b hsb hr.1.1 env [], fun _ => retFree_no_ret c hsc hr.1.2 env []⟩)
+      have e : pc + glen (Stmt.tryS i b true c true f) none (ctx.map BI.shape) = pc + 2 + lb + (lc + 4) + (2 + lf + 1) := by
+        simp [glen, hlb, hlc, hlf]; omega
+      rw [e]
+      simp only [if_true, Bool.false_eq_true, if_false, Nat.add_zero, Nat.reduceAdd] at T
+      simpa [Sim, exec] using T
   | loop k id n body ih =>
     intro cur lab ls ctx pc C σ env hst hls hlab hcur hnop hC hpc hh hit hcnt
     subst hls
@@ -1022,7 +1848,9 @@ theorem sim (s : Stmt) : ∀ (cur : Nat) (lab : Option Label) (ls : List Label) 
     have e : pc + glen (Stmt.blk s) none (ctx.map BI.shape)
         = pc + 1 + glen s none (BS.scope :: ctx.map BI.shape) + 1 := by simp [glen]; omega
     rw [e]
-    simpa [Sim, exec] using W
+    have W' : SimK C ctx σ (pc + 1 + glen s none (BS.scope :: ctx.map BI.shape) + 1) (ids (Stmt.blk s)) (retFree (Stmt.blk s))
+        ([] ++ (exec env [] s).2) (kind (exec env [] s).1) := W
+    simpa [Sim, exec] using W'
   | ifIter m s ih =>
     intro cur lab ls ctx pc C σ env hst hls hlab hcur hnop hC hpc hh hit hcnt
     have hl : lab = none := hlab rfl
